@@ -469,6 +469,9 @@ class Routine(TimeThread, Stream):
             if self.state == self.State.Paused:
                 raise PausedStream
 
+            if self.state == self.State.Running:
+                raise RoutineException('cannot be resumed within itself')
+
             # Done & AlwaysYield.
             if self.state == self.State.Done:
                 if self._terminal_value is self._SENTINEL:
